@@ -218,6 +218,16 @@ theorem declares_set (g : Grp) (name k : String) (v : Val) :
   cases g with
   | mk i fs => cases i <;> simp [Grp.set, Grp.declares, Grp.fields, declares_setF, declares_assign]
 
+theorem Grp.set_keeps_init (g : Grp) (name : String) (v : Val) : (g.set name v).init = g.init := by
+  cases g; simp [Grp.set, Grp.init]
+
+/-- Another plain field of the same group keeps its value. -/
+theorem get_set_other_atom (g : Grp) (hi : g.init = true) (name k a : String) (v : Val) (hk : k ≠ name)
+    (hg : g.get k = some (.atom a)) : (g.set name v).get k = some (.atom a) := by
+  rw [Grp.set_init g hi]
+  simp only [Grp.get, Grp.fields] at hg ⊢
+  rw [get_setF_other _ _ _ _ hk, hg]; rfl
+
 /-- **Frame + propagation along any path that avoids the assigned name.**
     For a fully initialised tree and every path `q` of field names none of which is `name`:
     what is found at `q` after `set name v` is what was found before, with the same `set` applied to it
